@@ -205,7 +205,7 @@ EpNotReady == {Ep("n1", FALSE)}
 (* BGP family: addresses that share aggregates, dual stack, traffic policy  *)
 SpecsBgp(s) ==
   IF s = "s1"
-  THEN { Sv("LB", <<5>>, "Cluster", EpBoth), Sv("LB", <<5, 105>>, "Cluster", EpBoth),
+  THEN { Sv("LB", <<5>>, "Cluster", EpBoth), Sv("LB", <<5, 105>>, "Cluster", EpBoth), Sv("LB", <<105, 5>>, "Cluster", EpBoth),
          Sv("LB", <<9>>, "Cluster", EpBoth), Sv("LB", <<5>>, "Local", EpN2) }
   ELSE { Sv("LB", <<6>>, "Cluster", EpBoth), Sv("LB", <<107>>, "Cluster", EpBoth),
          Sv("LB", <<7>>, "Cluster", EpNotReady), Sv("CIP", <<6>>, "Cluster", EpBoth) }
@@ -219,7 +219,7 @@ InitNodesAB == [n \in SpkNodes |-> IF n = "n1" THEN NA ELSE NB]
 SpecsConv(s) ==
   IF s = "s1"
   THEN { Sv("LB", <<5>>, "Cluster", EpBoth), Sv("LB", <<7>>, "Cluster", EpBoth),
-         Sv("LB", <<5>>, "Local", EpN2), Sv("LB", <<5, 105>>, "Cluster", EpBoth),
+         Sv("LB", <<5>>, "Local", EpN2), Sv("LB", <<5, 105>>, "Cluster", EpBoth), Sv("LB", <<105, 7>>, "Cluster", EpBoth),
          Sv("LB", <<9>>, "Cluster", EpBoth), Sv("LB", <<>>, "Cluster", EpBoth) }
   ELSE { Sv("LB", <<6>>, "Cluster", EpBoth), Sv("LB", <<6>>, "Cluster", EpNotReady),
          Sv("CIP", <<6>>, "Cluster", EpBoth), Sv("LB", <<5>>, "Cluster", EpN1) }
@@ -234,7 +234,7 @@ NodesConvSmall(n) == IF n = "n1" THEN {NA, NB} ELSE {NA, Nd("a", FALSE, TRUE)}
 SpecsDual(s) ==
   IF s = "s1"
   THEN { Sv("LB", <<5, 105>>, "Cluster", EpBoth), Sv("LB", <<5>>, "Cluster", EpBoth), Sv("LB", <<105, 5>>, "Cluster", EpBoth),
-         Sv("LB", <<7, 105>>, "Cluster", EpBoth), Sv("CIP", <<5, 105>>, "Cluster", EpBoth) }
+         Sv("LB", <<7, 105>>, "Cluster", EpBoth), Sv("LB", <<105, 7>>, "Cluster", EpBoth), Sv("CIP", <<5, 105>>, "Cluster", EpBoth) }
   ELSE { Sv("LB", <<6>>, "Cluster", EpBoth) }
 InitDualSvcs == [s \in SpkSvcs |-> IF s = "s1" THEN Sv("LB", <<5, 105>>, "Cluster", EpBoth) ELSE NULL]
 InitConvSvcs == [s \in SpkSvcs |-> IF s = "s1" THEN Sv("LB", <<5>>, "Cluster", EpBoth) ELSE NULL]
@@ -242,14 +242,23 @@ InitConvSvcs7 == [s \in SpkSvcs |-> IF s = "s1" THEN Sv("LB", <<7>>, "Cluster", 
 InitConvSvcs2 == [s \in SpkSvcs |-> IF s = "s1" THEN Sv("LB", <<5>>, "Cluster", EpBoth) ELSE Sv("LB", <<6>>, "Cluster", EpBoth)]
 (* small catalogues for the targeted configurations                         *)
 SpecsBgpSmall(s) ==
-  IF s = "s1" THEN { Sv("LB", <<5>>, "Cluster", EpBoth), Sv("LB", <<5, 105>>, "Cluster", EpBoth), Sv("LB", <<9>>, "Cluster", EpBoth) }
+  IF s = "s1" THEN { Sv("LB", <<5>>, "Cluster", EpBoth), Sv("LB", <<5, 105>>, "Cluster", EpBoth), Sv("LB", <<105, 5>>, "Cluster", EpBoth),
+                     Sv("LB", <<9>>, "Cluster", EpBoth) }
   ELSE { Sv("LB", <<6>>, "Cluster", EpBoth) }
 SpecsOne(s) == IF s = "s1" THEN { Sv("LB", <<5>>, "Cluster", EpBoth) } ELSE {}
 SpecsTwoAddr(s) == IF s = "s1" THEN { Sv("LB", <<5>>, "Cluster", EpBoth), Sv("LB", <<7>>, "Cluster", EpBoth) } ELSE {}
+(* two addresses the hash gives to n1, so that layer 2 stays with this node *)
+SpecsTwoWin(s) == IF s = "s1" THEN { Sv("LB", <<5>>, "Cluster", EpBoth), Sv("LB", <<6>>, "Cluster", EpBoth) } ELSE {}
+(* dual stack, IPv6 first, the two addresses won by different nodes (105: n1, 7: n2) *)
+SpecsV6First(s) == IF s = "s1" THEN { Sv("LB", <<105, 7>>, "Cluster", EpBoth), Sv("LB", <<7, 105>>, "Cluster", EpBoth) } ELSE {}
+InitV6First == [s \in SpkSvcs |-> IF s = "s1" THEN Sv("LB", <<105, 7>>, "Cluster", EpBoth) ELSE NULL]
+NodesFlapB(n) == IF n = "n1" THEN {NA, NB} ELSE {NB}
 NodesFlap(n) == IF n = "n1" THEN {NA, NB} ELSE {NA}
 (* --ignore-exclude-lb: the speaker's own node carries the exclude label    *)
 NXA == Nd("a", FALSE, TRUE)
 NodesIgn(n) == IF n = "n1" THEN {NXA, Nd("a", TRUE, TRUE), NA} ELSE {NA, Nd("a", TRUE, FALSE)}
+NodesIgnSmall(n) == IF n = "n1" THEN {NXA, Nd("a", TRUE, TRUE)} ELSE {NA}
+SpecsOne7(s) == IF s = "s1" THEN { Sv("LB", <<7>>, "Cluster", EpBoth) } ELSE {}
 InitNodesIgn == [n \in SpkNodes |-> IF n = "n1" THEN NXA ELSE NA]
 BothMembers == {"n1", "n2"}
 NoMembers == {}
